@@ -208,11 +208,27 @@ class CacheMap(_MapLike):
 
 
 def _toms_policy(key, state):
-    def ghost_cache(eng, v):
-        if v != {}:
-            raise Unsupported("toms748_scan.cache is not initialised with an empty dict")
+    def ghost_cache(eng, v, name):
+        # the memo is the local that starts as an empty dict, whatever it is called
+        if not (isinstance(v, dict) and v == {}):
+            return v
+        if state.get("path") is eng.path:
+            raise Unsupported("toms748_scan has two locals initialised with an empty dict")
+        state["path"] = eng.path
         state["cache"] = CacheMap(eng, key)
         return state["cache"]
+
+    def roles(eng):
+        """(point, results) variables of the bracket-extension loop in front of the interpreter, read off its own text:
+        the loop body re-evaluates `results = g(point)` after moving `point`"""
+        import ast as _ast
+        found = [(st.targets[0].id, st.value.args[0].id) for st in eng.loop_node.body
+                 if isinstance(st, _ast.Assign) and len(st.targets) == 1 and isinstance(st.targets[0], _ast.Name)
+                 and isinstance(st.value, _ast.Call) and len(st.value.args) == 1 and not st.value.keywords
+                 and isinstance(st.value.args[0], _ast.Name)]
+        if len(found) != 1:
+            raise Unsupported("bracket-extension loop is not of the form `move point; results = g(point)`")
+        return found[0][1], found[0][0]
 
     def toms748_contract(eng, call):
         k = len(calls_to(eng.path, "ext:scipy.optimize.toms748"))
@@ -223,25 +239,29 @@ def _toms_policy(key, state):
         return (eng.real(f"bb_lo{k}"), eng.real(f"bb_hi{k}"))
 
     def lo_inv(eng, env):
-        return [("lower_results-is-hypotest-of-bounds_low", eng.veq(env.lookup("lower_results"), hyp_value(eng, env.lookup("bounds_low"))))]
+        pt, res = roles(eng)
+        return [("lower_results-is-hypotest-of-bounds_low", eng.veq(env.lookup(res), hyp_value(eng, env.lookup(pt))))]
 
     def lo_havoc(eng, env):
+        pt, res = roles(eng)
         b = eng.real("bounds_low_h")
-        env.bind("bounds_low", b)
-        env.bind("lower_results", hyp_value(eng, b))
+        env.bind(pt, b)
+        env.bind(res, hyp_value(eng, b))
         state["cache"].havoc(eng)
 
     def up_inv(eng, env):
-        return [("upper_results-is-hypotest-of-bounds_up", eng.veq(env.lookup("upper_results"), hyp_value(eng, env.lookup("bounds_up"))))]
+        pt, res = roles(eng)
+        return [("upper_results-is-hypotest-of-bounds_up", eng.veq(env.lookup(res), hyp_value(eng, env.lookup(pt))))]
 
     def up_havoc(eng, env):
+        pt, res = roles(eng)
         b = eng.real("bounds_up_h")
-        env.bind("bounds_up", b)
-        env.bind("upper_results", hyp_value(eng, b))
+        env.bind(pt, b)
+        env.bind(res, hyp_value(eng, b))
         state["cache"].havoc(eng)
     return {
         "infer/__init__.py::hypotest": hypotest_contract,
-        ("ghost_local", key, "cache"): ghost_cache,
+        ("ghost_local", key, "*"): ghost_cache,
         "ext:scipy.optimize.toms748": toms748_contract,
         f"{key}.best_bracket": best_bracket_contract,
         ("loop", key, 0): LoopSpec(f"{key}#inv.loop-lower", lo_inv, lo_havoc),
